@@ -152,3 +152,37 @@ class Escape:
         self.active.discard(key)
         self.memo[key] = out
         return out
+
+
+def handler_discards_found(fn: ast.AST) -> List[Tuple[ast.Try, ast.ExceptHandler, str, ast.stmt, ast.stmt]]:
+    """[(try, handler, name, the statement of the try body that binds `name`, a later statement of the body that can raise)]
+
+    A handler that (re)binds `name` - the "not there: use the default" idiom - runs not only when the look-up of `name` failed but
+    also when a LATER statement of the same try body failed, i.e. after `name` had been found: the value that was looked up
+    successfully is replaced by the default.  Reported when the handler completes normally (no raise/return/continue/break at its
+    end) and `name` is read after the try statement."""
+    out = []
+    for tr in ast.walk(fn):
+        if not isinstance(tr, ast.Try):
+            continue
+        bound: List[Tuple[str, int, ast.stmt]] = []
+        for i, st in enumerate(tr.body):
+            for x in ast.walk(st):
+                if isinstance(x, ast.Name) and isinstance(x.ctx, ast.Store):
+                    bound.append((x.id, i, st))
+        after = {x.id for x in ast.walk(fn) if isinstance(x, ast.Name) and isinstance(x.ctx, ast.Load)
+                 and getattr(x, "lineno", 0) > (getattr(tr, "end_lineno", None) or tr.lineno)}
+        for h in tr.handlers:
+            if h.body and isinstance(h.body[-1], (ast.Raise, ast.Return, ast.Continue, ast.Break)):
+                continue
+            rebinds = {x.id for st in h.body for x in ast.walk(st) if isinstance(x, ast.Name) and isinstance(x.ctx, ast.Store)}
+            seen = set()
+            for nm, i, st in bound:
+                if nm not in rebinds or nm not in after or nm in seen:
+                    continue
+                later = [s2 for s2 in tr.body[i + 1:] if any(isinstance(y, (ast.Subscript, ast.Call)) for y in ast.walk(s2))]
+                if later:
+                    seen.add(nm)
+                    out.append((tr, h, nm, st, later[0]))
+    return out
+
